@@ -35,7 +35,9 @@ RULE = ("seeded random ensembles: 1..5 realizations, 1..4 variables with random 
         "with the O(1) realization-to-realization spread, and its mirror image with all values scaled by 2^-14..2^-20), NaN in unperturbed and perturbed slots (any column), "
         "perturbation_min_success / realization_min_success thresholds (also left to their defaults), magnitudes (scalar and "
         "per variable, absolute and relative), finite bounds that keep or clip the design and partly infinite bounds with every "
-        "boundary type, optional VariableScaler, zero to two realization filters (sort/cvar on objectives or constraints) mapped "
+        "boundary type, optional VariableScaler, zero to two realization filters (sort/cvar on objectives or constraints; assigned to objectives only, to constraints "
+        "only -- the other index array omitted -- or to both; together with configured zero weights; the evaluator honours the "
+        "context's active flags in half of the cases) mapped "
         "to subsets of the functions, merged (shared perturbations; identical realizations with equal or unequal weights; also "
         "with fewer perturbations than free variables per realization) and per-realization estimation, and merged estimation "
         "with a stddev estimator (must be rejected).  Perturbations: injected deterministic designs (signed permutations of the "
@@ -56,7 +58,7 @@ RULE = ("seeded random ensembles: 1..5 realizations, 1..4 variables with random 
         "the case is outside the merged-estimation known finding; for _invert_linear_equations cases: the same bound on the "
         "matrix.  distinct = distinct case dictionaries.")
 ASSUMPTIONS = [
-    "the evaluator is a table-driven affine (or quadratic) function of (variables, realization) that returns NaN in the generated failure slots; it evaluates every row it is given (it ignores the active flags), is deterministic, and its failure pattern for unperturbed rows depends on the point of the request sequence only",
+    "the evaluator is a table-driven affine (or quadratic) function of (variables, realization) that returns NaN in the generated failure slots; in half of the cases it honours the context and returns 0 for entries flagged inactive (like the evaluator of ropt's own test-suite), otherwise it computes every entry; it is deterministic, and its failure pattern for unperturbed rows depends on the point of the request sequence only",
     "NumPy/LAPACK singular values of the reported difference matrices are used to decide (through the model's own 99.9 % rule with the generated SVD_TOLERANCE) whether a value comparison is made, and to classify cases as non-trivial (1 % bound)",
     "merged estimation is generated where the property speaks about it (shared perturbations with a common set of successful rows, or identical realizations) and, as trivial cases, with fewer perturbations than free variables; inside the known finding the reported gradient must equal the one-sided-weight stacked solve the finding describes",
     "same point: two vectors of one request sequence are the same point iff they agree within the evaluator's documented test (absolute 1e-15); the other points are 1/8 or more away, or a tiny dyadic step (2^-20 .. 2^-46, above the test: another point whose cached function values must not be used; 2^-51 .. 2^-60, below it: the same point, the resulting error is far below the comparison tolerance)",
@@ -182,7 +184,7 @@ def _gen_request(rng, V, free_idx, favour_split=False, request=None):
         d[rng.choice(fixed_idx)] = rng.choice([-1.0, -0.25, 0.5, 1.0])
         points[0] = d
     return {"request": request, "ops": [list(o) for o in ops], "final": final, "via": via, "points": points,
-            "reuse_buffer": rng.random() < 0.3, "decoy": rng.random() < 0.25}
+            "reuse_buffer": rng.random() < 0.3, "decoy": rng.random() < 0.25, "lazy": rng.random() < 0.5}
 
 
 def _gen_samplers(rng, P, V, R, free_idx, sampler, shared_all, multi):
@@ -236,7 +238,7 @@ def _gen_estimators(rng, stds, no, merge):
 
 
 def gen_ens(rng, *, sampler="inject", merge=None, affine=True, edge=False, small=False, simple=False, request=None,
-            std_with_merge=False, values=None):
+            std_with_merge=False, values=None, filter_focus=False):
     V = rng.choice([1, 2, 2, 3] if small else [1, 2, 2, 3, 3, 4])
     R = rng.choice([1, 2, 2, 3] if small else [1, 2, 3, 3, 4, 5])
     mask = None
@@ -255,6 +257,9 @@ def gen_ens(rng, *, sampler="inject", merge=None, affine=True, edge=False, small
         P = min(6, nfree + rng.choice([1, 2, 2, 3]))
     no = rng.choice([1, 1, 2] if small else [1, 1, 2, 3])
     nc = rng.choice([0, 0, 1] if small else [0, 0, 1, 2])
+    if filter_focus:
+        R = max(R, rng.choice([2, 3, 4]))
+        nc = rng.choice([1, 1, 2, 0])
     nf = no + nc
     if merge is None:
         merge = False
@@ -342,10 +347,12 @@ def gen_ens(rng, *, sampler="inject", merge=None, affine=True, edge=False, small
         scaler = {"scales": [rng.choice([0.5, 2.0, 4.0, 1.0]) for _ in range(V)],
                   "offsets": [_dy(rng, -1, 1, 4) for _ in range(V)] if rng.random() < 0.6 else None}
     filt = None
-    if merge_mode in (None, "shared") and not simple and R >= 2 and rng.random() < 0.25:
+    if merge_mode in (None, "shared") and not simple and R >= 2 and (filter_focus or rng.random() < 0.25):
         filt = []
         for _ in range(rng.choice([1, 1, 2])):
             method = rng.choice(FILTERS if nc else FILTERS[:2])
+            if filter_focus and rng.random() < 0.6:
+                method = rng.choice(["cvar-constraint", "cvar-constraint", "cvar-objective"] if nc else ["cvar-objective"])
             on_obj = method.endswith("objective")
             if method.startswith("sort"):
                 first = rng.randint(0, R - 1)
@@ -356,9 +363,29 @@ def gen_ens(rng, *, sampler="inject", merge=None, affine=True, edge=False, small
         pick = [-1] + list(range(len(filt))) * 2
         ofilt = [rng.choice(pick) for _ in range(no)]
         cfilt = [rng.choice(pick) for _ in range(nc)]
-        if all(v < 0 for v in ofilt + cfilt):
+        # which side carries filters: constraints only / objectives only (the other index array is then OMITTED from the
+        # configuration, not filled with -1) / both
+        side = rng.choice(["both", "both", "objectives", "constraints"] if not filter_focus else
+                          ["both", "objectives", "constraints", "constraints"]) if nc else "objectives"
+        if side == "constraints":
+            ofilt = None
+            if all(v < 0 for v in cfilt):
+                cfilt[rng.randrange(nc)] = 0
+        elif side == "objectives":
+            cfilt = None
+            if all(v < 0 for v in ofilt):
+                ofilt[0] = 0
+        elif all(v < 0 for v in ofilt + cfilt):
             ofilt[0] = 0
         filt = {"filters": filt, "ofilt": ofilt, "cfilt": cfilt}
+        if rng.random() < 0.5 and not all(weights):
+            pass
+        elif filter_focus or rng.random() < 0.5:
+            # configured zero weights together with filters (cvar assigns its own weights, also to such realizations)
+            weights = list(weights)
+            weights[rng.randrange(R)] = 0.0
+            if not any(weights):
+                weights[rng.randrange(R)] = 1.0
     case = {"kind": "ens", "V": V, "R": R, "P": P, "no": no, "nc": nc, "x0": x0, "mask": mask, "weights": weights,
             "ow": ow, "stds": stds, "slopes": slopes, "offsets": offsets, "quad": quad, "pmin": pmin, "rmin": rmin,
             "merge": bool(merge), "merge_mode": merge_mode, "sampler": samp, "magnitudes": magnitudes, "bounds": bounds,
@@ -366,6 +393,8 @@ def gen_ens(rng, *, sampler="inject", merge=None, affine=True, edge=False, small
             "scaler": scaler, "filter": filt, "estimators": _gen_estimators(rng, stds, no, bool(merge)),
             "values": values or "O(1)"}
     case.update(_gen_request(rng, V, free_idx, favour_split=filt is not None, request=request))
+    if filter_focus:
+        case["lazy"] = rng.random() < 0.85
     return case
 
 
@@ -399,7 +428,8 @@ def gen_cases(tier, rng):
     n_edge = 60 if quick else 800
     n_ls = 200 if quick else 2000
     n_regime = 70 if quick else 800
-    plan = (["regime"] * n_regime + ["inject"] * n_inject + ["builtin"] * n_builtin + ["quad"] * n_quad + ["merge"] * n_merge
+    n_filter = 90 if quick else 1000
+    plan = (["regime"] * n_regime + ["filter"] * n_filter + ["inject"] * n_inject + ["builtin"] * n_builtin + ["quad"] * n_quad + ["merge"] * n_merge
             + ["edge"] * n_edge + ["ls"] * n_ls)
     rng.shuffle(plan)          # spreads the expensive full-precision cases evenly over the shards
     k_builtin = 0
@@ -409,6 +439,9 @@ def gen_cases(tier, rng):
         elif kind == "builtin":
             k_builtin += 1
             yield gen_ens(rng, sampler=METHODS[k_builtin % len(METHODS)], small=True)
+        elif kind == "filter":
+            # realization filters versus the activity flags handed to an evaluator that skips inactive entries
+            yield gen_ens(rng, filter_focus=True, small=rng.random() < 0.5)
         elif kind == "regime":
             yield gen_ens(rng, values=rng.choice(["large-offsets", "large-offsets", "tiny"]), small=rng.random() < 0.5)
         elif kind == "quad":
@@ -560,8 +593,9 @@ def _config_dict(case):
     f = _filters(case)
     if f is not None:
         cfg["realization_filters"] = [{"method": e["method"], "options": e["options"]} for e in f["filters"]]
-        cfg["objectives"]["realization_filters"] = f["ofilt"]
-        if nc:
+        if f["ofilt"] is not None:
+            cfg["objectives"]["realization_filters"] = f["ofilt"]
+        if nc and f["cfilt"] is not None:
             cfg["nonlinear_constraints"]["realization_filters"] = f["cfilt"]
     if _request(case)[2] == "optimizer":
         cfg["optimizer"] = {"method": "verif/script"}
@@ -594,6 +628,7 @@ def run_ens(case):
     ops, final, via, reuse = _request(case)
     rfails = [case["rfail"]] + list(case.get("rfail_alt") or [case["rfail"], case["rfail"]])
     state = {"pts": [0], "calls": [], "same0": {0}}
+    lazy = bool(case.get("lazy"))
 
     def evaluator(variables, ctx):
         n = variables.shape[0]
@@ -607,6 +642,13 @@ def run_ens(case):
             out[i] = A[r] @ variables[i] + B[r]
             if Q is not None:
                 out[i] += Q[r] * float(np.sum(variables[i] ** 2))
+            if lazy:
+                # an evaluator that honours the context (like the one of ropt's own test-suite): entries flagged inactive are
+                # not computed and come back as 0
+                if ctx.active_objectives is not None:
+                    out[i, :no] = np.where(np.asarray(ctx.active_objectives)[:, r], out[i, :no], 0.0)
+                if nc and ctx.active_constraints is not None:
+                    out[i, no:] = np.where(np.asarray(ctx.active_constraints)[:, r], out[i, no:], 0.0)
             # unperturbed rows are laid out vector by vector (R rows each); perturbed rows belong to the only vector
             k = pts[min(i // R, len(pts) - 1)] if p < 0 else pts[0]
             if (p < 0 and rfails[k][r]) or (p >= 0 and case["pfail"][r][p]):
@@ -1262,7 +1304,10 @@ def features(case, obs):
            "estimator_list": "legacy" if est is None else ("default" if est["layout"] is None else ",".join(est["layout"])),
            "request": case.get("request", "functions-then-gradient" if case.get("split") else "combined"),
            "issued_through": via, "caller_buffer_reused": reuse, "answered": obs.get("path", "-"),
-           "second_evaluator_object_in_between": bool(case.get("decoy"))}
+           "second_evaluator_object_in_between": bool(case.get("decoy")),
+           "evaluator_skips_inactive_entries": bool(case.get("lazy")),
+           "filters_on": "-" if f is None else ("constraints-only" if f["ofilt"] is None else
+                                                 "objectives-only" if f["cfilt"] is None else "both")}
     if obs.get("outcome") == "grad" and case["quad"] is None:
         out["inside_1pct_bound"] = _cond_ok(case, obs)
     return out
@@ -1332,6 +1377,8 @@ def shrink(case):
         yield {**case, "reuse_buffer": False}
     if case.get("decoy"):
         yield {**case, "decoy": False}
+    if case.get("lazy"):
+        yield {**case, "lazy": False}
     if len(ops) > 1:
         for k in range(len(ops)):
             yield {**case, "ops": ops[:k] + ops[k + 1:], "request": "shrunk"}
